@@ -27,7 +27,10 @@ def _un_camel(ref):
         if isinstance(a, VPy):
             # un_camel(text): len(text), text[i] -- anything but a str is a TypeError (C17: must not escape)
             ex.safety(st, "TypeError", PyVal.is_pstr(a.e), node, "un_camel of a value that is not a string")
-        return VStr(z3.String(fresh_name("un_camel")))
+        r = VStr(z3.String(fresh_name("un_camel")))
+        st.env["uc_result_"] = r            # ghost: what un_camel returned for the function's name
+        st.env["uc_arg_"] = a
+        return r
     return VFun("util.un_camel[contract C08/U1: pure, needs a str]", call)
 
 
@@ -52,6 +55,9 @@ def make_fattrs_unit(with_fattrs):
             # the name used for every generated symbol is the declaration's name AFTER the YAML attributes were merged:
             # fattrs: {name: x} equals the inline attribute +name(x)
             "self.fmtdict.function_name == ast.name",
+            # C08: the underscore name is un_camel of exactly that name, unaltered (un_camel is injective on the documented
+            # alphabet; stripping or trimming its result would merge names)
+            "self.fmtdict.underscore_name == uc_result_ and uc_arg_ == ast.name",
         ] + (["implies(kwargs['fattrs'].get('name'), self.fmtdict.function_name == kwargs['fattrs']['name'])"] if with_fattrs else []),
         # a name attribute without a value (+name -> True) or with a non-string value is rejected with a message
         raises=["RuntimeError"],
